@@ -8,7 +8,7 @@ import itertools
 from hypothesis import strategies as st
 
 from vlib.core import Outcome, Part
-from vlib import hedenv
+from vlib import fuzz, hedenv
 
 PROPERTY = "C02"
 LEVEL = "exploration"
@@ -235,10 +235,14 @@ def parts(tier):
         Part("unicode", oracle_unicode, strategy=text_strategy, n=n_unicode),
         Part("token-sequences", oracle_exhaustive, enumerate_fn=make_seq_enum(3 if tier == "quick" else 4),
              exhaustive=True, distinct_by_construction=False),
-    ]
+    ] + ([Part("coverage-guided", oracle_unicode, enumerate_fn=fuzz.make_enum("c02", 150000),
+               distinct_by_construction=False)] if tier != "quick" else [])
 
 
 def extra_evidence(tier):
     maxlen = 7 if tier == "quick" else 9
-    return {"exhaustive_bound": f"all {sum(6 ** k for k in range(maxlen + 1))} strings of length <= {maxlen} over "
+    return {"coverage_guided_engine": ("atheris campaigns per shard; corpus and objections replayed through the oracle"
+                                       if tier != "quick" and fuzz.available() else
+                                       ("not used in the quick tier" if tier == "quick" else "atheris not installed: part empty")),
+            "exhaustive_bound": f"all {sum(6 ** k for k in range(maxlen + 1))} strings of length <= {maxlen} over "
                                 f"{list(ALPHABET)}"}
